@@ -32,9 +32,10 @@ def main() -> int:
             else:
                 verdict = "refuted" if failed else "same"
             ok = verdict == entry["expect"]
-            # "unsupported" means the engine declined (the bounded part then decides): a warning, not unsoundness
-            bad += 0 if (ok or verdict == "unsupported") else 1
-            print(("ok   " if ok else ("WARN " if verdict == "unsupported" else "WRONG")), entry["contract"], "expected", entry["expect"], "got", verdict,
+            # every corpus entry stays inside the supported subset: "unsupported" here means the engine lost
+            # a function it used to verify (a silent loss of coverage), so it fails the self-test
+            bad += 0 if ok else 1
+            print(("ok   " if ok else "WRONG"), entry["contract"], "expected", entry["expect"], "got", verdict,
                   (res["out_of_subset"] or "")[:100])
     finally:
         shutil.rmtree(scratch, ignore_errors=True)
